@@ -1572,8 +1572,15 @@ package decimal128
 //@ loop 1: decreases 16 - i
 //@ apply before "i := 0": be64_digits(sig128[1])
 //@ apply before "i := 0"#1: be64_digits(sig128[0])
-//@ assert before "i := 0": forall k in 0..7: sig[k] == (sig128[1] / pow2(56 - 8 * k)) % 256 && sig[k + 8] == (sig128[0] / pow2(56 - 8 * k)) % 256
-//@ assert before "i := 0"#1: u128(sig128) == sum k in 0..15: sig[k] * pow2(8 * (15 - k))
+//@ assert before "i := 0": forall k in 0..1: sig[k] == (sig128[1] / pow2(56 - 8 * k)) % 256
+//@ assert before "i := 0": forall k in 0..1: sig[k + 8] == (sig128[0] / pow2(56 - 8 * k)) % 256
+//@ assert before "i := 0": forall k in 2..3: sig[k] == (sig128[1] / pow2(56 - 8 * k)) % 256
+//@ assert before "i := 0": forall k in 2..3: sig[k + 8] == (sig128[0] / pow2(56 - 8 * k)) % 256
+//@ assert before "i := 0": forall k in 4..5: sig[k] == (sig128[1] / pow2(56 - 8 * k)) % 256
+//@ assert before "i := 0": forall k in 4..5: sig[k + 8] == (sig128[0] / pow2(56 - 8 * k)) % 256
+//@ assert before "i := 0": forall k in 6..7: sig[k] == (sig128[1] / pow2(56 - 8 * k)) % 256
+//@ assert before "i := 0": forall k in 6..7: sig[k + 8] == (sig128[0] / pow2(56 - 8 * k)) % 256
+//@ assert before "i := 0": u128(sig128) == sum k in 0..15: sig[k] * pow2(8 * (15 - k))
 //@ props C14 C20
 
 //@ func uint256.lsh
